@@ -407,6 +407,50 @@ def run(chk):
                 chk.violation(f"C18|multimerge|{mode}|column-order", "the merged columns are not the tables' columns side by side",
                               {**meta, "real": list(out.columns), "model": mcols})
 
+    # ---- multimerge: tables that share a data column name and no suffixes given.  pandas.merge then tells the clashing columns apart with
+    # its own _x / _y (not modelled; the names are not compared) -- the call must still return the join: same keys, the tables' columns
+    # side by side (compared by position) with each table's cells at its keys
+    for nt in (2, 3):
+        for how in (None, "inner", "left"):
+            for keymode in ("index", "column"):
+                keysets = [["a", "b", "c", "d"], ["c", "a", "e"], ["f", "a", "c", "b"]][:nt]
+                tabs = [pd.DataFrame({"key": ks, "count": [float(10 * i + j) for j in range(len(ks))],
+                                      "freq": [float(100 * i + j) / 7 for j in range(len(ks))]}) for i, ks in enumerate(keysets)]
+                kw = {} if how is None else {"how": how}
+                given = [t.set_index("key") for t in tabs] if keymode == "index" else tabs
+                real = core.call_real(lambda: io.multimerge(given, "index" if keymode == "index" else "key", **kw))
+                meta = {"mode": "shared-column-names-" + keymode, "how": how, "tables": nt, "keys": keysets}
+                chk.case(nontrivial_key=("merge-shared", json.dumps(meta, sort_keys=True)))
+                chk.count("multimerge:shared-column-names")
+                if real[0] != "ok":
+                    chk.violation(f"C18|multimerge|shared-column-names|raises-{real[1]}",
+                                  f"multimerge raised {real[1]} on tables that share a data column name (no suffixes given)", meta)
+                    continue
+                out = real[1]
+                if keymode == "column":
+                    out = out.set_index("key") if isinstance(out, pd.DataFrame) and "key" in out.columns else out
+                want_keys = set(keysets[0])
+                for ks in keysets[1:]:
+                    want_keys = (want_keys | set(ks)) if how is None else (want_keys & set(ks)) if how == "inner" else want_keys
+                bad = None
+                if not isinstance(out, pd.DataFrame) or out.shape[1] != 2 * nt:
+                    bad = f"the result has {getattr(out, 'shape', None)} (wanted {2 * nt} data columns)"
+                elif sorted(map(str, out.index)) != sorted(want_keys):
+                    bad = f"keys {sorted(map(str, out.index))} instead of {sorted(want_keys)}"
+                else:
+                    for i, t in enumerate(tabs):
+                        ti = t.set_index("key")
+                        for j in range(2):
+                            col = out.iloc[:, 2 * i + j]
+                            for k in want_keys:
+                                w = ti.iloc[:, j].get(k, float("nan"))
+                                g = col.loc[k]
+                                if not ((w != w and g != g) or w == g):
+                                    bad = f"table {i} column {j} at key {k}: {g!r} instead of {w!r}"
+                if bad:
+                    chk.violation("C18|multimerge|shared-column-names|differs",
+                                  f"multimerge(how={how}) of tables sharing data column names is not the join: {bad}", meta)
+
 
 def replay(path):
     r = json.load(open(path))
